@@ -50,7 +50,7 @@ def c17_stages(tier):
     if tier == "quick":
         return [xport_stage("C17", 120_000, crash_is_violation=True), xport_stage("C17", 160, name="miri", kind="miri", shards=16, timeout=600)]
     return [xport_stage("C17", 4_000_000, timeout=3600, crash_is_violation=True),
-            xport_stage("C17", 10_000, name="miri", kind="miri", shards=16, timeout=3000)]
+            xport_stage("C17", 6_000, name="miri", kind="miri", shards=16, timeout=3600)]
 
 
 def c13_stages(tier):
